@@ -5,6 +5,8 @@ mod known;
 mod monitors;
 mod monitors2;
 mod monitors3;
+mod script2;
+mod genstats;
 mod refmodel;
 mod analysis;
 mod profiles;
@@ -742,6 +744,28 @@ fn cmd_run(prop: &str, tier: &str, seed: u64, workers: u64, hists_override: Opti
     for (k, n) in &known_seen {
         println!("KNOWN-FINDING: property={prop} {k} (hit in {n} sampled histories)");
     }
+    // every listed finding of this property with a committed replay is replayed too; it is reported only while it
+    // still fails (a finding that stops reproducing and is not sampled either produces no line)
+    for f in &known.findings {
+        if f.property != prop || f.status != "known" {
+            continue;
+        }
+        let Some(rp) = &f.replay else { continue };
+        let path = format!("{vd}/{rp}");
+        if !std::path::Path::new(&path).exists() {
+            continue;
+        }
+        let shim = format!("{vd}/shim/libverifrand.so");
+        let out = std::process::Command::new(&exe).args(["replay", &path]).env("LD_PRELOAD", &shim).env("VERIF_REPLAY_KNOWN", "1").output();
+        let still_fails = matches!(&out, Ok(o) if o.status.code() == Some(1));
+        let sampled = known_seen.keys().any(|k| k.starts_with(&format!("{} ", f.id)));
+        if still_fails && !sampled {
+            println!("KNOWN-FINDING: property={prop} {} {} (committed replay {rp} still fails)", f.id, f.what);
+            known_seen.insert(format!("{} (committed replay)", f.id), 1);
+        } else if !still_fails {
+            println!("note: committed replay {rp} of finding {} no longer fails", f.id);
+        }
+    }
     if let Ok(p) = std::env::var("VERIF_DIGESTS_OUT") {
         // determinism proof: per-history digests of the full event log (normalised flavour), sorted by history
         let mut s = String::new();
@@ -913,6 +937,7 @@ fn main() {
         }
         "hist" => cmd_hist(&args[2], args[3].parse().unwrap(), args[4].parse().unwrap()),
         "digests" => cmd_digests(&args[2], args[3].parse().unwrap(), args[4].parse().unwrap()),
+        "genstats" => genstats::run(&args[2], args[3].parse().unwrap(), args[4].parse().unwrap()),
         _ => 2,
     };
     std::process::exit(code);
